@@ -2,6 +2,7 @@ package main
 
 import (
 	"go/types"
+	"math"
 	"math/big"
 	"strconv"
 	"strings"
@@ -159,6 +160,35 @@ func (ex *Exec) stdStub(st *PState, fn *ssa.Function, full string, args []Value)
 				cs = append(cs, ts.Implies(in, ts.Eq(ex.sliceElemGuarded(st, a, it).(*Term), ex.sliceElemGuarded(st, b, it).(*Term))))
 			}
 			return ts.And(cs...), true
+		}
+	case "math":
+		switch fn.Name() {
+		case "Ceil", "Floor", "Sqrt", "Log", "Log2", "Abs":
+			t, ok := args[0].(*Term)
+			if !ok || !t.IsConst() {
+				fail("math.%s of a symbolic float", fn.Name())
+			}
+			f, _ := t.rval.Float64()
+			var r float64
+			switch fn.Name() {
+			case "Ceil":
+				r = math.Ceil(f)
+			case "Floor":
+				r = math.Floor(f)
+			case "Sqrt":
+				r = math.Sqrt(f)
+			case "Log":
+				r = math.Log(f)
+			case "Log2":
+				r = math.Log2(f)
+			case "Abs":
+				r = math.Abs(f)
+			}
+			rr := new(big.Rat)
+			if rr.SetFloat64(r) == nil {
+				fail("math.%s result not finite", fn.Name())
+			}
+			return ts.Real(rr), true
 		}
 	case "os":
 		if fn.Name() == "Getenv" {
